@@ -12,7 +12,18 @@ TRUST = (
 )
 
 # id -> (engine, technique, level text, design ref)
+SM_TECH = "bounded exhaustive exploration of the real StateMachine: prefix-replay DFS over all operation/clock/in-state-action sequences plus explicit-state BFS with canonical state merging, lock-step reference model and clause monitors"
+SM_TEXT = (
+    "Every operation sequence up to the stated depth (and every canonical state up to the BFS depth) of every generated machine shape is "
+    "executed on the real class under a harness-owned exact clock and compared step by step with a reference model and with clause monitors "
+    "transcribed from the property; the result is a coverage statement over the bounded alphabet, not a sample."
+)
 CHECKS = {
+    "C01": ("sm", SM_TECH, SM_TEXT, "4 (sm engine, C01)"),
+    "C02": ("sm", SM_TECH, SM_TEXT, "4 (sm engine, C02)"),
+    "C03": ("sm", SM_TECH + "; all 16 ordered parameter subsets on each decorator", SM_TEXT, "4 (sm engine, C03)"),
+    "C04": ("sm", SM_TECH, SM_TEXT, "4 (sm engine, C04)"),
+    "C13": ("sm", SM_TECH + " (AutonomousStateMachine shapes, bracketed on_enable/on_iteration/on_disable histories)", SM_TEXT, "4 (sm engine, C13)"),
     "C20": (
         "crc",
         "explicit-state BFS over the closed 128-state checksum register through the real crc7(), plus exhaustive error-pattern and short-message enumeration",
